@@ -275,7 +275,7 @@ pub fn depth_bound(total_unstable: u64, theta: u64) -> Vec<u64> {
 /// never fires; the main branch grows one block at a time; a competing branch of length f
 /// forks below. The anchor must advance exactly when longest >= bound and
 /// longest - runner_up >= bound (judged only where "runner-up" is unambiguous).
-fn escape_family(rep: &mut Report, net: Network, theta: u32, fork_len: usize, max_len: usize) {
+fn escape_family(rep: &mut Report, net: Network, theta: u32, fork_len: usize, max_len: usize, contested_lead: Option<usize>) {
     use crate::factory;
     let mut out = Out::default();
     let mut w = World::new(WorldCfg::on(net, theta));
@@ -314,56 +314,74 @@ fn escape_family(rep: &mut Report, net: Network, theta: u32, fork_len: usize, ma
     }
     let mut tip = heavy;
     let mut advanced_at: Option<usize> = None;
-    for len in 1..=max_len {
-        let b = mk(&w, &tip, 20_000 + len as u64);
-        if !deliver(&mut w, &b, 1) {
-            out.violation("escape-block-rejected", None, json!({"len": len}));
-            break;
-        }
-        tip = *w.ids.last().unwrap();
-        out.transitions += 1;
-        let total = w.tree_hashes().len() as u64;
-        let bounds = depth_bound(total, theta as u64);
-        let longest = len as u64;
-        let runner = fork_len as u64;
-        // mainnet has no depth escape (and the difficulty rule cannot fire here)
-        let escapes = net != Network::Mainnet;
-        let must = escapes && bounds.iter().all(|b| longest >= *b && longest - runner.min(longest) >= *b);
-        let may = escapes && bounds.iter().any(|b| longest >= *b && longest - runner.min(longest) >= *b);
-        let pre_anchor = w.anchor();
-        let r = w.ingest(None);
-        out.states += 1;
-        if let Err(p) = r {
-            out.violation("trap", None, json!({"panic": p, "len": len}));
-            break;
-        }
-        let moved = w.anchor() != pre_anchor;
-        if moved && !may {
-            out.violation(
-                "escape-early",
-                None,
-                json!({"net": net.to_string(), "theta": theta, "fork_len": fork_len, "main_len": len, "unstable_blocks": total, "bound": bounds}),
-            );
-        }
-        if !moved && must {
-            out.violation(
-                "escape-withheld",
-                None,
-                json!({"net": net.to_string(), "theta": theta, "fork_len": fork_len, "main_len": len, "unstable_blocks": total, "bound": bounds}),
-            );
-        }
-        if may != must {
-            out.count("escape_rounding_ties_undecided");
-        }
-        if moved {
-            advanced_at = Some(len);
-            out.count("escape_firings");
-            // the new anchor is the first block of the main branch; the fork is gone
-            let tree: HashSet<H32> = w.tree_hashes().into_iter().collect();
-            if fork_len > 0 && tree.contains(&tip_f) {
-                out.violation("escape-kept-losing-fork", None, json!({"len": len}));
+    let mut fork_now = fork_len;
+    // steps: (grow fork?, grow main?) - in the contested variant the fork follows the main
+    // branch at a constant distance, so that the number of unstable blocks passes 1500
+    // while no branch has the lead the bound asks for
+    'outer: for len in 1..=max_len {
+        let mut steps: Vec<bool> = vec![]; // true = main branch, false = fork
+        if let Some(lead) = contested_lead {
+            if len > lead {
+                steps.push(false);
             }
-            break;
+        }
+        steps.push(true);
+        for is_main in steps {
+            let (parent, salt) = if is_main { (tip, 20_000 + len as u64) } else { (tip_f, 50_000 + len as u64) };
+            let b = mk(&w, &parent, salt);
+            if !deliver(&mut w, &b, 1) {
+                out.violation("escape-block-rejected", None, json!({"len": len, "main": is_main}));
+                break 'outer;
+            }
+            if is_main {
+                tip = *w.ids.last().unwrap();
+            } else {
+                tip_f = *w.ids.last().unwrap();
+                fork_now += 1;
+            }
+            out.transitions += 1;
+            let main_now = if is_main { len } else { len - 1 };
+            let total = w.tree_hashes().len() as u64;
+            let bounds = depth_bound(total, theta as u64);
+            let longest = main_now.max(fork_now) as u64;
+            let runner = main_now.min(fork_now) as u64;
+            // mainnet has no depth escape (and the difficulty rule cannot fire here)
+            let escapes = net != Network::Mainnet;
+            let must = escapes && bounds.iter().all(|b| longest >= *b && longest - runner >= *b);
+            let may = escapes && bounds.iter().any(|b| longest >= *b && longest - runner >= *b);
+            let pre_anchor = w.anchor();
+            let r = w.ingest(None);
+            out.states += 1;
+            if let Err(p) = r {
+                out.violation("trap", None, json!({"panic": p, "len": len}));
+                break 'outer;
+            }
+            let moved = w.anchor() != pre_anchor;
+            let detail = json!({"net": net.to_string(), "theta": theta, "fork_len": fork_now, "main_len": main_now,
+                "contested_lead": contested_lead, "unstable_blocks": total, "bound": bounds});
+            if moved && !may {
+                out.violation("escape-early", None, detail.clone());
+            }
+            if !moved && must {
+                out.violation("escape-withheld", None, detail.clone());
+            }
+            if may != must {
+                out.count("escape_rounding_ties_undecided");
+            }
+            if total > 1500 {
+                out.count("escape_judgements_beyond_1500_unstable_blocks");
+            }
+            if moved {
+                advanced_at = Some(len);
+                out.count("escape_firings");
+                // the new anchor is the first block of the longer branch; the other is gone
+                let tree: HashSet<H32> = w.tree_hashes().into_iter().collect();
+                let loser = if main_now >= fork_now { tip_f } else { tip };
+                if fork_now > 0 && tree.contains(&loser) {
+                    out.violation("escape-kept-losing-fork", None, json!({"len": len}));
+                }
+                break 'outer;
+            }
         }
     }
     if net == Network::Mainnet && advanced_at.is_some() {
@@ -376,7 +394,7 @@ fn escape_family(rep: &mut Report, net: Network, theta: u32, fork_len: usize, ma
     out.leaves += 1;
     if out.samples.is_empty() {
         out.samples.push(json!({"family": "depth-escape", "net": net.to_string(), "theta": theta,
-            "fork_len": fork_len, "anchor_advanced_at_main_length": advanced_at}));
+            "fork_len": fork_len, "contested_lead": contested_lead, "anchor_advanced_at_main_length": advanced_at}));
     }
     rep.out.merge(out);
 }
@@ -467,11 +485,22 @@ pub fn run(tier: &str) -> i32 {
     };
     let t0 = std::time::Instant::now();
     for (net, theta, f) in &fam {
-        escape_family(&mut rep, *net, *theta, *f, 520);
+        escape_family(&mut rep, *net, *theta, *f, 520, None);
+    }
+    // contested forks: the fork follows at a constant distance beyond 1500 unstable blocks
+    let contested: Vec<(Network, u32, usize, usize)> = if quick {
+        vec![(Network::Regtest, 2, 1, 830), (Network::Testnet, 2, 2, 830)]
+    } else {
+        vec![(Network::Regtest, 2, 1, 1000), (Network::Regtest, 2, 2, 1000), (Network::Regtest, 2, 3, 1000), (Network::Testnet, 1, 1, 1000),
+             (Network::Testnet, 144, 143, 1300), (Network::Testnet, 144, 144, 1300), (Network::Regtest, 144, 143, 1300), (Network::Regtest, 600, 498, 1000), (Network::Mainnet, 2, 1, 800)]
+    };
+    for (net, theta, lead, max_len) in &contested {
+        escape_family(&mut rep, *net, *theta, 0, *max_len, Some(*lead));
     }
     rep.parts.push(json!({"part": "depth-escape family", "runs": fam.len(), "main_branch_up_to": 520,
+        "contested_runs (net, theta, constant lead, main branch up to)": contested.iter().map(|c| json!([c.0.to_string(), c.1, c.2, c.3])).collect::<Vec<_>>(),
         "wall_s": t0.elapsed().as_secs_f64()}));
-    rep.rule = "TREE histories (block deliveries on any live block with difficulty from D, unsliced ingestion opportunities, set_config threshold changes) on three networks, with history monitors for the six finality clauses; plus the depth-escape family (heavy anchor, main branch grown block by block to 520, competing branch of length f)".into();
+    rep.rule = "TREE histories (block deliveries on any live block with difficulty from D, unsliced ingestion opportunities, set_config threshold changes) on three networks, with history monitors for the six finality clauses; plus the depth-escape family (heavy anchor, main branch grown block by block to 520, competing branch of length f; and a contested variant where the competing branch follows at a constant distance until the tree holds more than 1500 unstable blocks)".into();
     rep.bounds = json!({"tier": tier});
     rep.assume("depth escape judged only where 'runner-up' is unambiguous (one competing branch); exact-half rounding accepts either integer");
     rep.assume("trees that are both deep (hundreds of blocks) and wide are reached only by the escape family");
@@ -481,5 +510,6 @@ pub fn run(tier: &str) -> i32 {
     rep.floor("threshold_changes_flipping_stability", 5);
     rep.floor("ingestion_opportunities_checked", 100);
     rep.floor("escape_firings", 2);
+    rep.floor("escape_judgements_beyond_1500_unstable_blocks", 100);
     rep.finish()
 }
